@@ -11,6 +11,7 @@ CONSTANTS
   EnsureTx = FALSE
   ImplWR = "required"
   CancelOn = FALSE
+  InitVals = {0}
   RetryCount = 2
   MaxOps = 0
 VIEW ViewNoHist
